@@ -74,8 +74,8 @@ def r03b(ck, prog):
                 comps.add(a0.d["name"])
     # the sort is unconditional: no success return of msa_sort_len_name without the qsort
     qpos = [S.cfg.position(c) for c in S.body.calls("qsort")]
-    for r in S.success_returns():
-        if not qpos or S.cfg.reaches(None, S.cfg.position(r), avoid=qpos):
+    for r in S.success_returns()[:1]:
+        if not qpos or S.succeeds_avoiding(qpos):
             ck.violation("R03b", "R03b/msa_sort_len_name/conditional", site(prog, r),
                          "msa_sort_len_name can return success without sorting: records that compare equal on the shortcut's "
                          "criterion keep their input order", prog.config)
@@ -116,14 +116,22 @@ def r03b(ck, prog):
     ck.inst("R03b", site(prog, C, "len tests"), "%d test(s) on len; name compared on the equal-length branch" % len(lens), prog.config)
     eq = [x for x in lens if x["op"] == "=="]
     strc = [c for c in C.body.calls("strncmp", "strcmp", "memcmp")]
-    if not lens or not strc:
+    if not strc:
         ck.violation("R03b", "R03b/%s/shape" % C.name, where,
-                     "comparator does not compare len and then name", prog.config)
+                     "comparator does not compare names", prog.config)
     # the name comparison must be reached exactly when the lengths are equal
     for c in strc:
         from ..util import guards
         g = [cond for cond, pol in guards(c) if any(m.d["field"] == "len" for m in cond.find("MemberExpr"))]
+        if not g and not list(C.body.find("IfStmt")):
+            raise AnalysisBroken("R03b: comparator %s is not written with if-statements; the nesting of the name tie-break is not decided" % C.name)
         if not g:
+            # a ternary / early-return formulation: accept when the length test textually precedes and controls it
+            conds = [x for x in C.body.find("ConditionalOperator") if c.within(x) and any(m.d["field"] == "len" for m in x.child("cond").find("MemberExpr"))]
+            early = [i for i in C.body.find("IfStmt") if any(m.d["field"] == "len" for m in i.child("cond").find("MemberExpr")) and
+                     i.line <= c.line and any(r.k == "ReturnStmt" for r in i.child("then").walk())]
+            if conds or early:
+                continue
             ck.violation("R03b", "R03b/%s/tie" % C.name, site(prog, c),
                          "the name comparison is not nested under the length comparison", prog.config)
 
